@@ -1525,6 +1525,233 @@ class SextVarSlice(Base):
       s.p @= s.a[s.k:s.k + 2]
 
 
+# ------------------------------------------------------------------ reads the block analysis has to find (dependences between blocks)
+# Each design computes an intermediate wire in one block and uses it in another one in a syntactic position the read / write
+# analysis of the DSL (dsl/AstHelper.py) has to look into: a missed read is a missing constraint, i.e. a schedule-dependent result.
+
+@design(lambda st, a, b, sel, en, reset: (None, dict({"o": (a + (sel ^ 1)) & M8, "p": b ^ ((sel + 1) & 3)}, **{f"q[{i}][0]": (a if i == (sel ^ 2) else 0) for i in range(4)})))
+class InnerIdxExpr(Base):
+  """an index EXPRESSION (not a bare signal) in a subscript that is not the outermost one, on the read and on the write side"""
+  def construct(s):
+    s.ports()
+    s.o = OutPort(Bits8)
+    s.p = OutPort(Bits8)
+    s.q = [[OutPort(Bits8)] for _ in range(4)]
+    s.k = Wire(Bits2)
+    s.tbl = [[Wire(Bits8) for _ in range(2)] for _ in range(4)]
+
+    @update
+    def up_iie_k():
+      s.k @= s.sel
+
+    @update
+    def up_iie_t():
+      for i in range(4):
+        s.tbl[i][0] @= s.a + i
+        s.tbl[i][1] @= s.b ^ i
+
+    @update
+    def up_iie_o():
+      s.o @= s.tbl[s.k ^ 1][0]
+      s.p @= s.tbl[s.k + 1][1]
+
+    @update
+    def up_iie_w():
+      for i in range(4):
+        s.q[i][0] @= 0
+      s.q[s.k ^ 2][0] @= s.a
+
+
+@design(lambda st, a, b, sel, en, reset: (None, {"o": a & 0xF, "p": ((b & 0xF) + 1) & M8}))
+class KwArgCall(Base):
+  """signals passed as KEYWORD arguments of a call"""
+  def construct(s):
+    s.ports()
+    s.o = OutPort(Bits8)
+    s.p = OutPort(Bits8)
+    s.w = Wire(Bits4)
+    s.w2 = Wire(Bits4)
+
+    @update
+    def up_kw_w():
+      s.w @= s.a[0:4]
+      s.w2 @= s.b[0:4]
+
+    @s.func
+    def kw_add1(x):
+      s.p @= zext(x, 8) + 1
+
+    @update
+    def up_kw_o():
+      s.o @= zext(value=s.w, new_width=8)
+      kw_add1(x=s.w2)
+
+
+@design(lambda st, a, b, sel, en, reset: (None, {"o": a & 0xF, "p": b & 0xF, "q": ((a & 0xF) << 4) | (b & 0xF), "r": ((a & 0xF) + 1) & 0xF}))
+class CallResultUse(Base):
+  """a slice / a field / a method of the RESULT of a call, and a slice of a parenthesised expression"""
+  def construct(s):
+    s.ports()
+    s.o = OutPort(Bits8)
+    s.p = OutPort(Bits8)
+    s.q = OutPort(Bits8)
+    s.r = OutPort(Bits8)
+    s.w = Wire(Bits4)
+    s.w2 = Wire(Bits4)
+
+    @update
+    def up_cru_w():
+      s.w @= s.a[0:4]
+      s.w2 @= s.b[0:4]
+
+    @update
+    def up_cru_o():
+      s.o @= zext(s.w, 16)[0:8]
+
+    @update
+    def up_cru_p():
+      s.p @= zext(Pst(s.w, s.w2).y, 8)
+
+    @update
+    def up_cru_q():
+      s.q @= concat(s.w, s.w2).uint()
+
+    @update
+    def up_cru_r():
+      s.r @= zext((s.w + 1)[0:4], 8)
+
+
+@design(lambda st, a, b, sel, en, reset: (None, {"o": (a + 1) & M8}))
+class ReturnAnnotation(Base):
+  """an update block with a return annotation"""
+  def construct(s):
+    s.ports()
+    s.o = OutPort(Bits8)
+    s.w = Wire(Bits8)
+
+    @update
+    def up_ra_w() -> None:
+      s.w @= s.a
+
+    @update
+    def up_ra_o() -> None:
+      s.o @= s.w + 1
+
+
+# ------------------------------------------------------------------ flip-flop writes the DSL has to understand or refuse
+# MAY_REJECT: the DSL may refuse these designs at elaboration (a pymtl3.dsl.errors exception); if it accepts one, the
+# simulation has to follow the reference under every schedule.
+MAY_REJECT = ("FFVarBit", "FFVarSlice", "FuncCombWriteInFF")
+
+
+def _reg_a_ref(st, a, b, sel, en, reset):
+  return ("r", a), {"o": a}
+
+
+@design(_reg_a_ref)
+class FFVarBit(Base):
+  """bits of a register written one by one with a loop variable as the index"""
+  def construct(s):
+    s.ports()
+    s.o = OutPort(Bits8)
+    s.r = Wire(Bits8)
+    s.o //= s.r
+
+    @update_ff
+    def ff_vb():
+      for i in range(8):
+        s.r[i] <<= s.a[i]
+
+
+@design(_reg_a_ref)
+class FFVarSlice(Base):
+  """parts of a register written with loop-variable bounds"""
+  def construct(s):
+    s.ports()
+    s.o = OutPort(Bits8)
+    s.r = Wire(Bits8)
+    s.o //= s.r
+
+    @update_ff
+    def ff_vs():
+      for i in range(4):
+        s.r[2 * i:2 * i + 2] <<= s.a[2 * i:2 * i + 2]
+
+
+@design(_reg_a_ref)
+class FuncWriteInFF(Base):
+  """the non-blocking write sits in a function called from the flip-flop block"""
+  def construct(s):
+    s.ports()
+    s.o = OutPort(Bits8)
+    s.r = Wire(Bits8)
+    s.o //= s.r
+
+    @s.func
+    def fwf_load(x):
+      s.r <<= x
+
+    @update_ff
+    def ff_fwf():
+      fwf_load(s.a)
+
+
+def _two_stage_ref(st, a, b, sel, en, reset):
+  r, q = st if st else (0, 0)
+  return (a, r), {"o": r}
+
+
+@design(_two_stage_ref)
+class FuncCombWriteInFF(Base):
+  """a function called at the clock edge writes with @=; a second flip-flop block reads the signal"""
+  def construct(s):
+    s.ports()
+    s.o = OutPort(Bits8)
+    s.r = Wire(Bits8)
+    s.q = Wire(Bits8)
+    s.o //= s.q
+
+    @s.func
+    def fcw_load(x):
+      s.r @= x
+
+    @update_ff
+    def ff_fcw1():
+      fcw_load(s.a)
+
+    @update_ff
+    def ff_fcw2():
+      s.q <<= s.r
+
+
+class _AliasInc(Component):
+  def construct(s):
+    s.in_ = InPort(Bits8)
+    s.out = OutPort(Bits8)
+
+    @update
+    def up_alias_inc():
+      s.out @= s.in_ + 1
+
+
+@design(lambda st, a, b, sel, en, reset: (None, {"o": (2 * (a + 1)) & M8}))
+class LocalAliasRead(Base):
+  """signals of sub-components read through a local name bound in the block (for m in s.subs: ... m.out)"""
+  def construct(s):
+    s.ports()
+    s.o = OutPort(Bits8)
+    s.subs = [_AliasInc() for _ in range(2)]
+    for m in s.subs:
+      m.in_ //= s.a
+
+    @update
+    def up_lar():
+      t = Bits8(0)
+      for m in s.subs:
+        t = t + m.out
+      s.o @= t
+
+
 def sequences():
   """input sequences (lists of dicts): one long deterministic walk covering every (sel, en) with varied a, b; reset pulses inside"""
   A = (0, 1, 0x5A, 0xFF, 0x80, 0x0F, 0x37)
